@@ -257,11 +257,26 @@ fn stress(ctx: &Ctx, out: &mut Outcome) {
             let mut hs = vec![];
             for q in queries.iter().cloned() {
                 let node = node.clone();
-                hs.push(tokio::spawn(async move { node.query(&q).await.map(|b| rows::canonical_rows(&b)).map_err(|e| e.to_string()) }));
+                // every query is issued several times in a row, so that re-registrations of the table keep coming
+                // while the others plan (the first answer that deviates, or the first error, is the task's result)
+                hs.push(tokio::spawn(async move {
+                    let mut last = Err("not run".to_string());
+                    let mut first: Option<Vec<String>> = None;
+                    for _ in 0..10 {
+                        last = node.query(&q).await.map(|b| rows::canonical_rows(&b)).map_err(|e| e.to_string());
+                        match (&last, &first) {
+                            (Err(_), _) => return last,
+                            (Ok(a), Some(f)) if a != f => return last,
+                            (Ok(a), None) => first = Some(a.clone()),
+                            _ => {}
+                        }
+                    }
+                    last
+                }));
             }
             out.eval();
             out.count("stress.rounds", 1);
-            out.count("stress.queries", nq as u64);
+            out.count("stress.queries", 10 * nq as u64);
             out.nontrivial(hash_str(&format!("stress|{}", idx)));
             for (i, h) in hs.into_iter().enumerate() {
                 let got = h.await.unwrap_or_else(|e| Err(e.to_string()));
